@@ -64,6 +64,7 @@ Variable has_comma : bytes -> bool.
 Variable tolist : bool -> bytes -> list bytes.
 Variable is_bracket : bytes -> bool.
 Variable is_digits : bytes -> bool.
+Variable render : list bytes -> bytes.
 
 (* a readable string / list: not quoted already, free of commas, double quotes and backslashes *)
 Definition rd (s : bytes) : Prop := vok s /\ plain s = true.
@@ -143,7 +144,7 @@ Hypothesis qin_eq : forall s, vok s -> qin s = quote s.
 Lemma read_cond : forall d loaded reqs, rcond_ok d ->
   exists f, build_test qin qlist gen_tables loaded (ctuple d) reqs = BOk (f, cneg d, creqs d reqs) /\
             is_named (done f) k_not = false /\
-            cond_tuple strip has_comma tolist is_bracket is_digits (done f) = Some (ROk (traw d)) /\
+            cond_tuple strip has_comma tolist is_bracket is_digits render (done f) = Some (ROk (traw d)) /\
             (forall k, walk (S k) (done f) = [done f]) /\
             (if cneg d then fold_not (d_name (node_def (done f))) (traw d) else ROk (traw d)) = ROk (expected d) /\
             is_action (done f) = false.
@@ -171,11 +172,11 @@ Qed.
 
 Hypothesis qlist_eq : forall l, qlist l = 91%N :: join [44%N] (map quote l) ++ [93%N].
 
-Notation conditions := (conditions_of strip has_comma tolist is_bracket is_digits).
+Notation conditions := (conditions_of strip has_comma tolist is_bracket is_digits render).
 Notation actions := (actions_of strip has_comma tolist).
 
 Lemma conditions_app_skip : forall l rest neg,
-  Forall (fun n => is_named n k_not = false /\ cond_tuple strip has_comma tolist is_bracket is_digits n = None) l ->
+  Forall (fun n => is_named n k_not = false /\ cond_tuple strip has_comma tolist is_bracket is_digits render n = None) l ->
   conditions (l ++ rest) neg = conditions rest neg.
 Proof.
   induction l as [|n l IH]; intros rest neg H; [reflexivity|]. inversion H as [|n' l' [H1 H2] Hl]; subst.
@@ -226,7 +227,7 @@ Qed.
 
 Lemma act_skip : forall a n, canon_cmd fsep (acmd qin a) n ->
   (forall k, walk (S k) n = [n]) /\ is_named n k_not = false /\
-  cond_tuple strip has_comma tolist is_bracket is_digits n = None.
+  cond_tuple strip has_comma tolist is_bracket is_digits render n = None.
 Proof.
   intros a n H. unfold acmd in H. inversion H as [d args am em Hid Hty Hch Hs Hg Hn| |]; subst.
   assert (Hname : d_name d = aname a) by congruence.
@@ -239,7 +240,7 @@ Qed.
 
 Lemma kids_skip : forall acts kids, Forall2 (canon_cmd fsep) (map (acmd qin) acts) kids ->
   forall k, flat_map (walk (S k)) kids = kids /\
-  Forall (fun n => is_named n k_not = false /\ cond_tuple strip has_comma tolist is_bracket is_digits n = None) kids.
+  Forall (fun n => is_named n k_not = false /\ cond_tuple strip has_comma tolist is_bracket is_digits render n = None) kids.
 Proof.
   induction acts as [|a r IH]; intros kids H k; inversion H as [|c n cs ns Hc Hr]; subst; [split; constructor|].
   destruct (act_skip a n Hc) as (Hw & Hn & Hct). destruct (IH ns Hr k) as (E & F).
@@ -275,7 +276,7 @@ Theorem read_filter : forall loaded conds acts anyof reqs fuel,
   conds <> [] -> Forall rcond_ok conds -> Forall act_ok acts -> Forall act_plain acts -> 4 <= fuel ->
   exists n, create_filter qin qlist gen_tables loaded (map ctuple conds) (map atuple acts) (mt_name anyof) reqs =
             BOk (n, freqs conds acts reqs) /\
-            get_conditions strip has_comma tolist is_bracket is_digits fuel n = ROk (map expected conds) /\
+            get_conditions strip has_comma tolist is_bracket is_digits render fuel n = ROk (map expected conds) /\
             get_matchtype fuel n = Some (mt_name anyof).
 Proof.
   intros loaded conds acts anyof reqs fuel Hne Hc Ha Hp Hfuel. unfold create_filter.
@@ -307,9 +308,9 @@ Proof.
   - unfold get_conditions. rewrite Wif, Ek, !app_nil_r.
     cbn [app conditions_of].
     assert (N1 : is_named (if_node (mt_node anyof ns) kids) k_not = false) by vmr.
-    assert (C1 : cond_tuple strip has_comma tolist is_bracket is_digits (if_node (mt_node anyof ns) kids) = None) by vmr.
+    assert (C1 : cond_tuple strip has_comma tolist is_bracket is_digits render (if_node (mt_node anyof ns) kids) = None) by vmr.
     assert (N2 : is_named (mt_node anyof ns) k_not = false) by (destruct anyof; vmr).
-    assert (C2 : cond_tuple strip has_comma tolist is_bracket is_digits (mt_node anyof ns) = None) by (destruct anyof; vmr).
+    assert (C2 : cond_tuple strip has_comma tolist is_bracket is_digits render (mt_node anyof ns) = None) by (destruct anyof; vmr).
     rewrite N1, C1, N2, C2, (proj1 (Hrd k kids)).
     rewrite <- (app_nil_r kids), (conditions_app_skip kids [] false Fk). cbn [conditions_of rbind]. rewrite app_nil_r. reflexivity.
   - unfold get_matchtype. rewrite Wif. cbn [app matchtype_of].
@@ -431,7 +432,7 @@ Theorem factory_read_filter : forall loaded conds acts anyof reqs fuel,
             get_matchtype fuel n = Some (mt_name anyof).
 Proof.
   intros loaded conds acts anyof reqs fuel Hne Hc Ha Hp Hf.
-  destruct (read_filter quote_if_necessary quote_list strip_dq std_has_comma std_tolist std_is_bracket all_digits
+  destruct (read_filter quote_if_necessary quote_list strip_dq std_has_comma std_tolist std_is_bracket all_digits render_list
               std_Hstrip std_Hcomma std_Hbr_s std_Hbr_l std_Hlist (fun n H => H) std_qin_eq std_qlist_eq
               loaded conds acts anyof reqs fuel Hne Hc Ha Hp Hf) as (n & Hb & Hg & Hm).
   exists n. split; [exact Hb|]. split; [|exact Hm].
@@ -445,7 +446,7 @@ Theorem factory_read_actions : forall loaded conds acts anyof reqs fuel,
             BOk (n, freqs conds acts reqs) /\
             std_get_actions fuel n = ROk (map (fun a => map fv_rv (atuple a)) acts).
 Proof.
-  exact (read_filter_actions quote_if_necessary quote_list strip_dq std_has_comma std_tolist std_is_bracket all_digits
+  exact (read_filter_actions quote_if_necessary quote_list strip_dq std_has_comma std_tolist std_is_bracket all_digits render_list
            std_Hstrip std_Hcomma std_Hbr_s std_Hbr_l std_Hlist (fun n H => H) std_qin_eq std_qlist_eq).
 Qed.
 
